@@ -17,7 +17,8 @@ The ten SECoP datatypes with the properties that matter for validation (`frappy/
 
 `unit`, `fmtstr` do not take part in validation and are not modelled here (C03 adds them where it
 needs them).  `DType.WF` is what the constructors and `HasProperties.checkProperties`
-(`properties.py:155-169`) enforce.
+(`properties.py:155-169`) enforce (float limits went through `FloatRange.validate`, hence are finite,
+within ±max and canonical: `x + 0.0 = x`).
 -/
 namespace Frappy
 
@@ -111,11 +112,13 @@ def WF : DType F → Prop
   | double min max ar rr =>
       isFinite min = true ∧ isFinite max = true ∧ le min max = true ∧
       le (neg maxFinite) min = true ∧ le max maxFinite = true ∧
+      addZero min = min ∧ addZero max = max ∧
       isFinite ar = true ∧ nonneg ar = true ∧ isFinite rr = true ∧ nonneg rr = true
   | int min max => min ≤ max ∧ -intLimit ≤ min ∧ max ≤ intLimit
   | scaled scale min max ar rr =>
       isFinite scale = true ∧ positive scale = true ∧
       isFinite min = true ∧ isFinite max = true ∧ le min max = true ∧
+      addZero min = min ∧ addZero max = max ∧
       isFinite ar = true ∧ nonneg ar = true ∧ isFinite rr = true ∧ nonneg rr = true
   | bool => True
   | enum ms => namesOK ms = true ∧ (ms.map (·.1)).Nodup ∧ (ms.map (·.2)).Nodup
@@ -141,10 +144,12 @@ mutual
 def wfB : DType F → Bool
   | double min max ar rr =>
       isFinite min && isFinite max && le min max && le (neg maxFinite) min && le max maxFinite &&
+      same (addZero min) min && same (addZero max) max &&
       isFinite ar && nonneg ar && isFinite rr && nonneg rr
   | int min max => decide (min ≤ max) && decide (-intLimit ≤ min) && decide (max ≤ intLimit)
   | scaled scale min max ar rr =>
       isFinite scale && positive scale && isFinite min && isFinite max && le min max &&
+      same (addZero min) min && same (addZero max) max &&
       isFinite ar && nonneg ar && isFinite rr && nonneg rr
   | bool => true
   | enum ms => namesOK ms && nodupB (ms.map (·.1)) && nodupB (ms.map (·.2))
